@@ -185,9 +185,10 @@ def nextShuffle (n : Nat) : M (List Nat) := do
     else fail .desync
   | _ => fail .desync
 
+/-- `random.random()`: a value in `[0, 1)` (the recorded value is checked). -/
 def nextRandom : M Q := do
   match (← popEv) with
-  | .real k q => if k = .random then pure q else fail .desync
+  | .real k q => if k = .random ∧ qle 0 q = true ∧ qlt q 1 = true then pure q else fail .desync
   | _ => fail .desync
 
 /-- `random.uniform(lo, hi)`; the recorded value is checked to lie in `[lo, hi]`. -/
